@@ -767,7 +767,7 @@ func c02Abort(c *Check) {
 				_, isLit := ast.Unparen(resolveLocal(rr.Info, rr.FI.Decl.Body, e)).(*ast.CompositeLit)
 				return isLit
 			}) {
-				if !l.Whole || !posIn(l.Body, call.Pos()) {
+				if !l.Whole || !within(l.Body, call) {
 					continue
 				}
 				if _, skip := rr.F.Reach(Query{From: rr.F.LoopBodyStart(l), Inclusive: true, Target: rr.F.IterEnd(l), Avoid: isPt([]Pt{pt})}); skip {
